@@ -7,11 +7,14 @@
 //!   rect.offset x y w h o                   -> <offset rect>
 //!   rect.corners x1 y1 x2 y2                -> <with_corners rect>
 //!   rect.withcenter cx cy w h               -> <with_center rect>
+//!   rect.pts   x y w h                      -> `points()` in iteration order, digested beyond 64 points
+//!                                              (`n= first= last= h=`, see `m_line::pts_digest`): rectangles
+//!                                              larger than the 12x12 limit of `rect.one`
 //!
 //! Oracle (the property text as a predicate, evaluated on the real results):
 //!   Lean statement mirrored: `mem_intersection`, `intersection_zero_of_disjoint`,
 //!   `envelope_least`, `contains_iff_points`, `points_row_major`, `resized_keeps_anchor`,
-//!   `offset_moves_sides`, `with_center_center`.
+//!   `offset_moves_sides`, `offset_grow_moves_sides`, `with_center_center`.
 use crate::common::*;
 use embedded_graphics::{
     geometry::{AnchorPoint, AnchorX, AnchorY},
@@ -78,7 +81,10 @@ impl Module for M {
     }
     fn rule(&self) -> &'static str {
         "ops are generated as: all ordered pairs of rectangles with corners in a small grid (incl. zero width/height), \
-         every rectangle of the grid for the single-rectangle queries, all 9 anchors x target sizes, offsets -N..=N, \
+         every rectangle of the grid for the single-rectangle queries, all 9 anchors x target sizes, offsets -N..=N \
+         of all sizes 0..=7 x 0..=7 (zero sides included: `offset:zero-side-grown` counts the ops where a zero \
+         side is grown by n > 0), `points()` of 14 fixed + seeded random rectangles of up to 321x240 / 150x150 \
+         points (beyond the 12x12 whose points `rect.one` lists) through a digest, \
          then seeded random rectangles with coordinates up to +-2^20. An op is non-trivial when the rectangles involved \
          are not all zero-sized and (for pairs) their x- or y-intervals touch or overlap; distinct = distinct op text."
     }
@@ -125,6 +131,19 @@ impl Module for M {
                     emit(format!("rect.offset -2 1 {} {} {}", w, h, o));
                 }
             }
+        }
+        // points() of rectangles beyond the 12x12 limit of `rect.one` (compared through a digest)
+        for (x, y, w, h) in [
+            (0i64, 0i64, 13i64, 13i64), (-6, -7, 13, 12), (-40, 3, 65, 1), (3, -40, 1, 65), (-1, -1, 64, 2), (-33, -2, 65, 2), (7, 7, 2, 33),
+            (-50, -20, 100, 37), (0, 0, 320, 240), (-160, -120, 321, 239), (1048000, -1048576, 40, 30), (-1048576, 1048000, 17, 19),
+            (5, 5, 300, 0), (5, 5, 0, 300),
+        ] {
+            emit(format!("rect.pts {} {} {} {}", x, y, w, h));
+        }
+        for _ in 0..(if tier == Tier::Quick { 60 } else { 600 }) {
+            let scale = *rng.pick(&[40i64, 1000, 1 << 20]);
+            let (w, h) = if rng.chance(1, 2) { (rng.range(13, 150), rng.range(1, 150)) } else { (rng.range(1, 150), rng.range(13, 150)) };
+            emit(format!("rect.pts {} {} {} {}", rng.range(-scale, scale), rng.range(-scale, scale), w, h));
         }
         // random rectangles up to +-2^20
         let n = if tier == Tier::Quick { 4000 } else { 200_000 };
@@ -174,6 +193,10 @@ impl Module for M {
                 let e = a.envelope(&b);
                 ctx.count("pair");
                 let cm = common(&a, &b);
+                if a.is_zero_sized() && b.is_zero_sized() {
+                    // the envelope of two empty rectangles is not empty (zero size treated as 1): Lean `envelope_zero_sized`
+                    ctx.count("pair:both-zero-sized");
+                }
                 if !(a.is_zero_sized() && b.is_zero_sized()) {
                     ctx.nontrivial(op);
                 }
@@ -342,6 +365,34 @@ impl Module for M {
                 }
                 out
             }
+            "rect.pts" => {
+                let r = t.rect();
+                ctx.count("pts");
+                if r.size.width > 12 || r.size.height > 12 {
+                    ctx.count("pts:larger-than-12x12");
+                }
+                let pts: Vec<Point> = r.points().collect();
+                if !pts.is_empty() {
+                    ctx.nontrivial(op);
+                }
+                // exactly the points top-left plus size describes, row-major, each once
+                let (x0, y0) = (r.top_left.x as i64, r.top_left.y as i64);
+                let (w, h) = (r.size.width as i64, r.size.height as i64);
+                ctx.expect(pts.len() as i64 == w * h, "points-length", || format!("{} points for {}", pts.len(), fmt_rect(&r)));
+                let mut k = 0usize;
+                let mut bad: Option<(i64, i64)> = None;
+                'rows: for y in y0..y0 + h {
+                    for x in x0..x0 + w {
+                        if k >= pts.len() || pts[k].x as i64 != x || pts[k].y as i64 != y || !r.contains(pts[k]) {
+                            bad = Some((x, y));
+                            break 'rows;
+                        }
+                        k += 1;
+                    }
+                }
+                ctx.expect(bad.is_none(), "points-not-contains-row-major", || format!("{}: point #{} is not {:?}", fmt_rect(&r), k, bad));
+                crate::m_line::pts_digest(&pts)
+            }
             "rect.resize" => {
                 let r = t.rect();
                 let ns = t.size();
@@ -379,10 +430,15 @@ impl Module for M {
                 let w = r.size.width as i64;
                 let h = r.size.height as i64;
                 let o64 = o as i64;
-                // A side of zero length can grow (o >= 0) but nothing can be removed from it.
-                if w + 2 * o64 > 0 && h + 2 * o64 > 0 && (o64 >= 0 || (w > 0 && h > 0)) {
-                    if w == 0 || h == 0 {
+                // A side of zero length can grow (o >= 0) but nothing can be removed from it. For o >= 0 every side
+                // moves by o whatever the size (also when a side stays zero: o = 0), as long as the size fits u32.
+                let fits = w + 2 * o64 <= u32::MAX as i64 && h + 2 * o64 <= u32::MAX as i64;
+                if (o64 >= 0 && fits) || (w + 2 * o64 > 0 && h + 2 * o64 > 0 && w > 0 && h > 0) {
+                    if (w == 0 || h == 0) && o64 > 0 {
                         ctx.count("offset:zero-side-grown");
+                    }
+                    if (w == 0 || h == 0) && o64 == 0 {
+                        ctx.count("offset:zero-side-offset-0");
                     }
                     ctx.nontrivial(op);
                     ctx.count("offset:nondegenerate");
